@@ -14,6 +14,20 @@ TRUSTED = [
 ]
 
 
+def _clauses(obligations):
+    """clause names (element indices stripped) with the number of discharged / total elements"""
+    import re
+    out = {}
+    for o in obligations:
+        if o.get("canary"):
+            continue
+        c = re.sub(r"\[[^\]]*\]$", "", o["name"].split("/", 1)[-1])
+        d = out.setdefault(c, [0, 0])
+        d[1] += 1
+        d[0] += o["verdict"] == "unsat"
+    return {k: f"{v[0]}/{v[1]}" for k, v in sorted(out.items())}
+
+
 def write(prop, tier, seed, mod, results, obs, canaries, violations, known_hits, undecided, errors, wall, code):
     kf = {id(o) for _, o in known_hits}
     obs = [o for o in obs if id(o) not in kf]  # obligations failing exactly as listed in known_findings.json are reported separately
@@ -48,6 +62,7 @@ def write(prop, tier, seed, mod, results, obs, canaries, violations, known_hits,
             "config_bound": getattr(mod, "CONFIG_BOUND", None),
             "tasks": [{"task": r["task"], "wall_s": r["wall_s"],
                        "obligations": len([o for o in r["obligations"] if not o.get("canary")]),
+                       "clauses": _clauses(r["obligations"]),
                        "problems": r["problems"]} for r in results],
             "canaries_refuted": len([c for c in canaries if c["verdict"] == "sat"]), "canaries": len(canaries),
             "bounded": bounded,
